@@ -121,82 +121,6 @@ theorem isBoundary_drop_eq {s : Bytes} {a i : Nat} (ha : isBoundary s a = true) 
   · exact h
   · exact absurd h hi
 
-theorem splitLoop_done (s : KStr) (pat : Bytes) (fuel start : Nat) (h : s.len < start) :
-    splitLoop s pat fuel start = some [] := by
-  cases fuel with
-  | zero => rfl
-  | succ f => simp only [splitLoop]; rw [if_neg (by omega)]
-
-/-- **`split` at the code level computes `splitB`** (every `with_bounds(..).unwrap()` succeeds) -/
-theorem splitLoop_refines {s : KStr} (hw : s.WF) {pat : Bytes} (hpv : validUtf8 pat = true) (hp : pat ≠ []) :
-    ∀ (fuel start : Nat), start ≤ s.len → isBoundary s.bytes start = true →
-      (splitLoop s pat fuel start).map (List.map KStr.bytes) = some (splitB pat fuel (s.bytes.drop start))
-  | 0, _, _, _ => rfl
-  | fuel + 1, start, hle, hbs => by
-    have hlen := KStr.bytes_length hw
-    have hv := hw.bytes_valid
-    have hvd : validUtf8 (s.bytes.drop start) = true := (valid_split hv hbs).2
-    have hpl : 0 < pat.length := List.length_pos_iff.mpr hp
-    simp only [splitLoop, splitB]
-    rw [if_pos hle]
-    cases hf : findAt pat (s.bytes.drop start) with
-    | none =>
-      simp only
-      have hok := KStr.withBounds_ok hw hle (Nat.le_refl _) hbs (hlen ▸ isBoundary_length _)
-      cases hwb : s.withBounds start s.len with
-      | none => rw [hwb] at hok; cases hok
-      | some t =>
-        rw [hwb] at hok
-        simp only [Option.map_some, Option.some.injEq] at hok
-        rw [splitLoop_done s pat fuel _ (by omega)]
-        simp only [Option.map_some, List.map_cons, List.map_nil, hok]
-        rw [List.take_of_length_le (by simp only [List.length_drop]; omega)]
-    | some e =>
-      simp only
-      have hle2 := findAt_some_le hf
-      simp only [List.length_drop, hlen] at hle2
-      have hbe : isBoundary (s.bytes.drop start) e = true := findAt_boundary hvd hpv hp hf
-      have hbe' : isBoundary s.bytes (start + e) = true := by
-        by_cases h0 : e = 0
-        · rw [h0]; simpa using hbs
-        · rw [← isBoundary_drop_eq hbs h0]; exact hbe
-      have hok := KStr.withBounds_ok hw (by omega : start ≤ start + e) (by omega) hbs hbe'
-      cases hwb : s.withBounds start (start + e) with
-      | none => rw [hwb] at hok; cases hok
-      | some t =>
-        rw [hwb] at hok
-        simp only [Option.map_some, Option.some.injEq] at hok
-        -- the position after the pattern is a boundary again
-        have hd := drop_of_findAt hf
-        have hv2 : validUtf8 ((s.bytes.drop start).drop e) = true := (valid_split hvd hbe).2
-        rw [hd] at hv2
-        have hb3 := boundary_after_valid_prefix hv2 hpv
-        rw [← hd, List.drop_drop] at hb3
-        have hb4 : isBoundary s.bytes (start + e + pat.length) = true := by
-          rw [← isBoundary_drop_eq hbe' (by omega)]; exact hb3
-        have ih := splitLoop_refines hw hpv hp fuel (start + e + pat.length) (by omega) hb4
-        cases hrec : splitLoop s pat fuel (start + e + pat.length) with
-        | none => rw [hrec] at ih; cases ih
-        | some ts =>
-          rw [hrec] at ih
-          simp only [Option.map_some, Option.some.injEq] at ih
-          simp only [Option.map_some, List.map_cons, hok, ih]
-          have e1 : start + e - start = e := by omega
-          rw [e1, List.drop_drop]
-          have e2 : start + (e + pat.length) = start + e + pat.length := by omega
-          rw [e2]
-
-theorem splitOp_refines {s : KStr} (hw : s.WF) {pat : Bytes} (hpv : validUtf8 pat = true) (hp : pat ≠ []) :
-    ∃ ts : List KStr, splitLoop s pat (s.len + 2) 0 = some ts ∧
-      ts.map KStr.bytes = splitB pat (s.len + 2) s.bytes := by
-  have h := splitLoop_refines hw hpv hp (s.len + 2) 0 (Nat.zero_le _) (isBoundary_zero _)
-  cases hr : splitLoop s pat (s.len + 2) 0 with
-  | none => rw [hr] at h; cases h
-  | some ts =>
-    rw [hr] at h
-    simp only [Option.map_some, Option.some.injEq, List.drop_zero] at h
-    exact ⟨ts, rfl, h⟩
-
 end KotoVerif.Str
 
 namespace KotoVerif.Str
